@@ -90,11 +90,20 @@ func (p *c19) RunCase(ctx *runner.Ctx) runner.CaseResult {
 	present, absent, puts, dels := 0, 0, 0, 0
 	if !doGet {
 		batch := []adapt.BatchEntry{}
+		// every fourth write batch REPEATS keys (put then delete, put then put, delete then put of one key) and
+		// has 13-25 requests: DynamoDB refuses such a batch; the library accepts it, and then "performing its
+		// requests individually" can only mean in the order of the request list (per table - tables are
+		// independent). Admissible: a validation error that leaves no trace, or the state of the in-order twin
+		repeat := r.Intn(4) == 0
+		if repeat {
+			size = 13 + r.Intn(13)
+			x.r.Counters["batches_with_repeated_keys"]++
+		}
 		for i := 0; i < size; i++ {
 			s := mon.Pick(r, specs)
 			it := mkItem(s, 100+i)
 			key := m.Tables[s.Name].KeyOf(it)
-			if seen[s.Name+key.Canon()] {
+			if seen[s.Name+key.Canon()] && !repeat {
 				continue
 			}
 			seen[s.Name+key.Canon()] = true
@@ -119,6 +128,13 @@ func (p *c19) RunCase(ctx *runner.Ctx) runner.CaseResult {
 		x.r.Evals += st.Calls + 1 + len(batch)
 		x.fp(len(batch) >= 2 && present > 0 && absent > 0, "%s|write|t%d|n%d|p%d|d%d|pr%d", adapter, len(specs), len(batch), puts, dels, present)
 		wit := map[string]interface{}{"adapter": adapter, "specs": specs, "history": hist, "batch": op, "outcome": got}
+		if repeat && got.Class == adapt.ClsValidation {
+			// refused like DynamoDB does: nothing may have been applied
+			if ds := mon.Observe(cl, m, keys, nil); len(ds) > 0 {
+				x.viol("refused-batch-left-trace", "batchwrite", fmt.Sprintf("[%s] BatchWriteItem with repeated keys was refused but changed the tables: %s", adapter, ds[0].Detail), wit)
+			}
+			return x.r
+		}
 		if ds := m.Step(op, got); len(ds) > 0 {
 			x.viol(ds[0].Rule, "batchwrite", fmt.Sprintf("[%s] BatchWriteItem: %s", adapter, ds[0].Detail), wit)
 			return x.r
